@@ -10,6 +10,7 @@ Three uses of TLC per check (DESIGN.md 3):
 """
 import json, os, random, time
 from vlib import *
+import replay as _rp
 
 ALL_POL = {"fifo", "lru", "lfu", "arc", "random", "tlru"}
 ALL_FLAV = {"sync", "thread", "async"}
@@ -102,10 +103,12 @@ def run_engine_check(pid, tier, seed, wd):
     spec = dict(ENGINE[pid])
     thorough = tier == "thorough"
     if thorough:
-        for k in ("limits", "ttls", "maxmems"):
-            spec[k] = set(spec[k]) | THOROUGH_EXTRA[k] if k != "maxmems" or 0 in spec[k] else set(spec[k]) | {5}
+        # wider configuration slice: every limit 1..3 (and none), ttl 1..3, a second memory bound, all weights
+        spec["limits"] = set(spec["limits"]) | {1, 2, 3}
+        spec["ttls"] = set(spec["ttls"]) | ({1, 3} if spec["ttls"] != {0} else set())
+        spec["maxmems"] = set(spec["maxmems"]) | {5}
         if "tlru" in spec["pols"]:
-            spec["weights"] = THOROUGH_EXTRA["weights"]
+            spec["weights"] = set(THOROUGH_EXTRA["weights"])
     mon = spec["mon"]
     t_start = time.time()
     info = {}
@@ -120,8 +123,10 @@ def run_engine_check(pid, tier, seed, wd):
               "Weights": set(ENGINE[pid]["weights"]), "SizesMem": {1, 2, 4},
               "MaxVer": 4 if thorough else 3, "MaxHits": 2}
     if thorough:
+        # the model checker gets the wider slice too, minus the largest constants (state explosion)
         consts["Limits"] = set(spec["limits"]) - {3}
         consts["Ttls"] = set(spec["ttls"]) - {3}
+        consts["Weights"] = set(spec["weights"]) if "tlru" in spec["pols"] else {"none"}
     write_cfg(mc_cfg, "Spec", consts, invariants=["StateOK", "GhostAgrees", "GhostFromState"],
               properties=spec["props"] + ["StatsExact"], constraint="Bounded", view="View")
     mc = tlc_mc("EngineMC", mc_cfg, pid + "_mc", workers=12, timeout=3000 if thorough else 600)
@@ -235,6 +240,7 @@ def run_engine_check(pid, tier, seed, wd):
                 tp = os.path.join(REPLAYS, "%s_edge_%d.ndjson" % (pid, ln))
                 any_line = next(i for i, x in enumerate(tl) if '"ev":"reset"' in x and json.loads(x)["trace"] == ln) + 1
                 extract_trace(tp_all, any_line, tp)
+                _rp.sidecar(tp, "engine", {"script": next(sc for sc in scripts if sc["id"] == ln)})
                 if ln in failing:
                     violations.append(("monitor P_%s false on the real path to explored transition %d (%s)" %
                                        (mon, ln, cfgs_), tp))
@@ -261,6 +267,7 @@ def run_engine_check(pid, tier, seed, wd):
     for ln in mine[:10]:
         tp = os.path.join(REPLAYS, "%s_rand_%d_%d.ndjson" % (pid, seed, ln))
         inner = extract_trace(rnd, ln, tp)
+        _rp.sidecar(tp, "engine", {"script": trace_to_script(open(tp).readlines())})
         violations.append(("monitor P_%s false on line %d of a random history" % (mon, inner), tp))
     for (i, l) in tv["drifts"][:10]:
         drift_notes.append("SPEC-DRIFT trace line=%d (%s)" % (l, i))
@@ -315,6 +322,7 @@ def run_memest_check(pid, tier, seed, wd):
         seen_ty.add(e["ty"])
         tp = os.path.join(REPLAYS, "%s_memest_%d.ndjson" % (pid, ln))
         open(tp, "w").write(lines[ln - 1])
+        _rp.sidecar(tp, "memest", {"seed": seed, "n": n})
         violations.append(("estimate_memory() of a %s is %d, its inline size plus owned heap capacity is different (descriptor in the replay file)"
                            % (e["ty"], e["est"]), tp))
     log("[%s] estimator fidelity: %d values of 16 standard types, TLC compared estimate with Footprint(descriptor): %d mismatches" %
